@@ -111,15 +111,21 @@ package mapr
 //@   at-call GetSet [same-group-key] arg1 == groupKey
 //@   at-call ).Merge [into-the-same-keys-aggregate] arg0 == target && arg1 == query && arg2 == set && has(group.sets, groupKey) && group.sets[groupKey] == set
 //@   ensures [no-error] isnil(result)
+// A refused non-blocking merge changes nothing (the caller keeps the data).
 //@ func (*GlobalGroupSet).MergeNoblock
 //@   requires [args] query != nil && group != nil
+//@   at-call ).merge [under-the-semaphore] g.semaphore.held == 1
+//@   ensures [refused-changes-nothing] implies(!result0, forallStr(k, has(g.sets, k) == old(has(g.sets, k)) && implies(has(g.sets, k), g.sets[k] == old(g.sets[k]))))
 //@   assigns *g.sets, elems(g.sets), *g.semaphore
 //@   ensures [no-error] isnil(result1)
 //@ func (*GlobalGroupSet).Merge
 //@   requires [args] query != nil && group != nil
+//@   at-call ).merge [under-the-semaphore] g.semaphore.held == 1
 //@   assigns *g.sets, elems(g.sets), *g.semaphore
 //@   ensures [no-error] isnil(result)
 //@ type GlobalGroupSet invariant [semaphore] self.semaphore != nil
+// The global group is only touched while holding its one-slot semaphore (C06).
+//@ type GlobalGroupSet semaphore semaphore
 
 // ---- tokens (C11) -------------------------------------------------------------
 // The clause keywords are the documented ones (doc/querylanguage.md); the
